@@ -60,6 +60,14 @@ fn init_dir(d: &Path, kind: usize) {
             write("vt.log.2020-01-01T00.00.00.000-1.log", 100);
             write("vt.log", 50);
         }
+        5 | 6 => {
+            // an earlier run died between renaming the full file and pruning (or the listing failed once): one / three
+            // archives more than the configured count, current file almost full
+            for i in 0..(N as usize + if kind == 5 { 0 } else { 2 }) {
+                write(&format!("vt.log.2020-01-01T00.00.{:02}.000-{}.log", i, i + 1), 100);
+            }
+            write("vt.log", 99);
+        }
         _ => {
             // current file present but empty, two archives
             write("vt.log.2020-01-01T00.00.00.000-1.log", 100);
@@ -98,7 +106,10 @@ fn run_history(base: &Path, kind: usize, hist: &[Op]) -> (Vec<String>, String) {
         let w = apply(&mut logger, &d, *op);
         let after = list(&d, NAME);
         if i + 1 == hist.len() {
-            if after.len() > (N as usize).max(before.len().min(N as usize)) {
+            // more files than configured: never after a roll (a new archive appeared: the prune step ran), never more than
+            // before (files left over by an interrupted earlier run are removed at the next roll)
+            let rolled = after.iter().any(|f| f.0 != NAME && !before.iter().any(|b| b.0 == f.0));
+            if after.len() > N as usize && (rolled || after.len() > before.len()) {
                 problems.push(format!("count: {} files match the log name after the operation (configured count {}): {:?}", after.len(), N, after.iter().map(|f| &f.0).collect::<Vec<_>>()));
             }
             if let Some(cur) = after.iter().find(|f| f.0 == NAME) {
@@ -146,7 +157,7 @@ fn main() {
     let mut states = 0u64;
     let mut transitions = 0u64;
     let mut traces = 0u64;
-    for kind in 0..5 {
+    for kind in 0..7 {
         let mut seen: HashSet<String> = HashSet::new();
         let mut frontier: VecDeque<Vec<Op>> = VecDeque::new();
         frontier.push_back(vec![]);
@@ -175,6 +186,29 @@ fn main() {
             }
         }
         states += seen.len() as u64;
+    }
+
+    // ---------------- A2. a log whose archive name cannot be created (the roll's rename fails while appending still works)
+    {
+        let d = fresh_dir(&base, "rl-long");
+        for name_len in [200usize, 225, 240] {
+            let name = format!("{}.log", "n".repeat(name_len));
+            let _ = std::fs::remove_file(d.join(&name));
+            let mut logger = RollingLogger::create_new(d.clone(), name.clone(), S, N);
+            let mut largest = 0u64;
+            for i in 0..12 {
+                let n = [1usize, S as usize / 2, S as usize][i % 3];
+                let _ = logger.write(log::Level::Info, "m".repeat(n));
+                largest = largest.max((34 + n + 1) as u64);
+                transitions += 1;
+                let size = std::fs::metadata(d.join(&name)).map(|m| m.len()).unwrap_or(0);
+                if size > (S - 1) + largest {
+                    res.violation("rolling-log:size:roll-cannot-rename", &format!("a log named with {name_len} characters (its archive name may exceed NAME_MAX) is {size} bytes after write {}; limit {S} + one write of at most {largest}", i + 1), json!({"family": "long-log-name", "name_length": name_len, "write": i + 1}));
+                    break;
+                }
+            }
+            traces += 1;
+        }
     }
 
     // ---------------- B. event logger: bursts x ticks on a paused clock ----------------
@@ -282,7 +316,7 @@ fn main() {
     res.cov("event_logger_histories", ev_hist);
     res.cov("rule_dump_histories", dump_hist);
     res.cov("exhaustive", true);
-    res.cov("rule", format!("rolling logger (size {S}, count {N}): BFS to depth {depth} over write(1 | fills to just below the limit | {S} | {}), write_many(2 x 10 | 2 x {S}), restart from 5 initial directories (empty; at the count limit with an almost full current file; current file above the size limit; foreign + sibling-logger files; empty current file), dedup on (file count, current size class, last op); event logger (cap {cap}, paused clock): every sequence of 3 (4) ticks with bursts of 0/1/cap-1/cap/cap+1/101/650/1001 (quick: 0/1/cap/cap+1/250/1001) events from 8 pre-filled directories incl. leftover .tmp files; rule dumps (max {max}): 2*max+1 write_all calls from directories with 0, max-1, max, max+3 dumps", 3 * S));
+    res.cov("rule", format!("rolling logger (size {S}, count {N}): BFS to depth {depth} over write(1 | fills to just below the limit | {S} | {}), write_many(2 x 10 | 2 x {S}), restart from 7 initial directories (empty; at the count limit with an almost full current file; current file above the size limit; foreign + sibling-logger files; empty current file; one and three archives more than the count, as an interrupted earlier run leaves them), plus logs whose name is so long that the archive name cannot be created (the roll's rename fails), dedup on (file count, current size class, last op); event logger (cap {cap}, paused clock): every sequence of 3 (4) ticks with bursts of 0/1/cap-1/cap/cap+1/101/650/1001 (quick: 0/1/cap/cap+1/250/1001) events from 8 pre-filled directories incl. leftover .tmp files; rule dumps (max {max}): 2*max+1 write_all calls from directories with 0, max-1, max, max+3 dumps", 3 * S));
     res.assume("initial directories above the configured count are outside the quantifier (earlier runs with the same settings never leave them); for those only non-increase is demanded");
     std::process::exit(res.finish());
 }
